@@ -5,12 +5,13 @@ Require Import Coq.Arith.Arith.
 Require Import Urcu.Fork.Fork.
 Require Import Urcu.BpArena.BpArena.
 Require Import Urcu.Fork.ForkRun.
+Require Import Urcu.Fork.WqPause.
 Import ListNotations.
 
 (* for every number of helpers and every schedule of call_rcu calls, helper steps (splice, grace period, invocations, pause, resume) and handler steps from the initial state: whenever the fork step is enabled every helper is PAUSED, unregistered, with an empty private batch; the child starts with the concatenation of the queues, the parent's helpers are untouched - each pending callback is queued exactly once in each process *)
 Theorem C16_fork_all_runs :
-    forall (nh : nat) (cs : list choice),
-    let s := run nh cs init in
+    forall (nh : nat) (cs : list Fork.choice),
+    let s := Fork.run nh cs Fork.init in
     fp s = F_Wait ->
     all_paused nh s = true ->
     (forall h : nat, h < nh -> hph (hp s h) = H_Paused /\ hbatch (hp s h) = [] /\ hreg (hp s h) = false) /\
@@ -20,8 +21,8 @@ Print Assumptions C16_fork_all_runs.
 
 (* every run accepted by the executable acceptor (the one the projected traces of urcu-call-rcu-impl.h are fed to) that stands at the fork has every helper parked, unregistered, with an empty private batch; the child inherits exactly the queued callbacks *)
 Theorem C16_accepted_run_fork_quiescent :
-    forall (nh : nat) (l : list choice) (s : st),
-    frun nh l init = Some s ->
+    forall (nh : nat) (l : list Fork.choice) (s : Fork.st),
+    frun nh l Fork.init = Some s ->
     enabled nh FFork s = true ->
     (forall h : nat, h < nh -> hph (hp s h) = H_Paused /\ hbatch (hp s h) = [] /\ hreg (hp s h) = false) /\
     child (exec nh FFork s) = Some (merged nh s).
@@ -30,7 +31,7 @@ Print Assumptions C16_accepted_run_fork_quiescent.
 
 (* the helper invariant (PAUSED only at the top of the loop, where the batch is empty and the thread has unregistered) is preserved by every step *)
 Theorem C16_fork_invariant_step :
-    forall (nh : nat) (s : st) (c : choice), Inv s -> Inv (exec nh c s).
+    forall (nh : nat) (s : Fork.st) (c : Fork.choice), Inv s -> Inv (exec nh c s).
 Proof. exact (@Urcu.Fork.Fork.Inv_exec). Qed.
 Print Assumptions C16_fork_invariant_step.
 
@@ -41,4 +42,41 @@ Theorem C16_bp_prune :
     length (nth i (prune a mi mj) []) = length (nth i a []).
 Proof. exact (@Urcu.BpArena.BpArena.prune_spec). Qed.
 Print Assumptions C16_bp_prune.
+
+(* PAUSE / PAUSED handshake of the hash table's work queue over any number of fork generations (parent continues, or the child re-creates the worker after clearing both flags), every schedule: at every fork point the worker is parked, not inside a work item *)
+Theorem C16_workqueue_parked_at_every_fork :
+    forall cs : list choice,
+    let s := run true cs init in
+    fk s = F_ForkPoint -> wk s = W_Parked /\ pause s = true /\ paused s = true.
+Proof. exact (@Urcu.Fork.WqPause.worker_parked_at_every_fork). Qed.
+Print Assumptions C16_workqueue_parked_at_every_fork.
+
+(* outside a fork bracket both flags are clear, so the next bracket starts from scratch *)
+Theorem C16_workqueue_flags_clear_outside_bracket :
+    forall cs : list choice,
+    let s := run true cs init in fk s = F_Idle -> pause s = false /\ paused s = false.
+Proof. exact (@Urcu.Fork.WqPause.flags_clear_outside_bracket). Qed.
+Print Assumptions C16_workqueue_flags_clear_outside_bracket.
+
+(* whenever the forking thread polls for PAUSED (or for its clearing) the condition holds or the worker has a step that brings it closer *)
+Theorem C16_workqueue_handshake_not_stuck :
+    forall cs : list choice,
+    let s := run true cs init in
+    (fk s = F_WaitPaused -> paused s = true \/ step true CW s <> s) /\
+    (fk s = F_WaitResumed -> paused s = false \/ step true CW s <> s).
+Proof. exact (@Urcu.Fork.WqPause.handshake_not_stuck). Qed.
+Print Assumptions C16_workqueue_handshake_not_stuck.
+
+(* every sequence of flag accesses accepted by the executable acceptor (fed with the hooked accesses to workqueue->flags of src/workqueue.c under the scheduler) stands at each fork point with the worker parked *)
+Theorem C16_accepted_workqueue_trace_parked :
+    forall (l : list wqact) (s : st),
+    wqrun l init = Some s -> fk s = F_ForkPoint -> wk s = W_Parked /\ pause s = true /\ paused s = true.
+Proof. exact (@Urcu.Fork.WqPause.accepted_wq_trace_parked_at_fork). Qed.
+Print Assumptions C16_accepted_workqueue_trace_parked.
+
+(* sensitivity: a child that keeps PAUSED set reaches its own fork point with its worker inside a work item *)
+Theorem C16_workqueue_stale_paused_refuted :
+    exists cs : list choice, let s := run false cs init in fk s = F_ForkPoint /\ wk s = W_Work.
+Proof. exact (@Urcu.Fork.WqPause.stale_paused_in_child_refuted). Qed.
+Print Assumptions C16_workqueue_stale_paused_refuted.
 
